@@ -308,6 +308,125 @@ def run(ctx):
     ctx.run("C10.SURFACE", "R-FLOW", surface)
     ctx.run("C10.ESCAPABLE", "R-SIBLING", escapable)
     ctx.run("C10.WORKER", "R-ERRDISC", worker)
+    ctx.run("C10.LOCK-ORDER", "R-LOCK", lock_order)
     # the joblib side of healing: a failed call must leave no state that disables the next abort / re-arming
     ctx.run("C04.RESET", "R-RESET", par.c04_reset)
     ctx.run("C04.CLEANUP", "R-ORDER", par.c04_cleanup)
+
+
+# ---------------------------------------------------------------------------
+# lock order (no deadlock between submit / resize / shutdown / manager thread)
+# ---------------------------------------------------------------------------
+
+LOCK_IDS = {
+    "self.shutdown_lock": "SHUTDOWN", "shutdown_lock": "SHUTDOWN", "self._shutdown_lock": "SHUTDOWN", "self._flags.shutdown_lock": "SHUTDOWN",
+    "self.processes_management_lock": "PROCESSES", "executor._processes_management_lock": "PROCESSES", "self._processes_management_lock": "PROCESSES",
+    "_global_shutdown_lock": "GLOBAL-SHUTDOWN",
+    "_executor_lock": "EXECUTOR", "self._submit_resize_lock": "EXECUTOR",
+}
+REENTRANT = {"EXECUTOR"}
+RECV_TYPES = {  # receiver expression -> classes whose methods it may denote
+    "self._flags": [(PE, "_ExecutorFlags")], "self.executor_flags": [(PE, "_ExecutorFlags")],
+    "executor": [(RE, "_ReusablePoolExecutor"), (PE, "ProcessPoolExecutor")],
+    "executor_manager_thread": [],
+}
+LK_FILES = [PE, RE, EX]
+
+
+def _with_locks(w):
+    return [LOCK_IDS[dotted(i.context_expr)] for i in w.items if dotted(i.context_expr) in LOCK_IDS]
+
+
+def _resolve_lk(ctx, call):
+    out = list(ctx.res.resolve_call(call, polymorphic=False))
+    f = call.func
+    if isinstance(f, ast.Attribute):
+        recv = dotted(f.value)
+        for rel, cname in RECV_TYPES.get(recv, []):
+            try:
+                c = ctx.repo.cls(rel, cname)
+            except Exception:
+                continue
+            m = ctx.res.method(rel, c, f.attr)
+            if m is not None and m not in out:
+                out.append(m)
+        if recv == "cls" and f.attr == "get_reusable_executor":
+            out.append(ctx.repo.func(RE, "_ReusablePoolExecutor.get_reusable_executor"))
+    return [t for t in out if getattr(t, "_module", None) is not None and t._module.relpath in LK_FILES]
+
+
+def _acquires(ctx, fn, depth, seen):
+    """{lock id: description of how} acquired (transitively) by calling fn"""
+    out = {}
+    if depth < 0 or id(fn) in seen:
+        return out
+    seen = seen | {id(fn)}
+    for n in body_walk(fn):
+        if isinstance(n, (ast.With, ast.AsyncWith)):
+            for l in _with_locks(n):
+                out.setdefault(l, "%s takes %s" % (fn._qualname, l))
+        if isinstance(n, ast.Call):
+            for t in _resolve_lk(ctx, n):
+                for l, how in _acquires(ctx, t, depth - 1, seen).items():
+                    out.setdefault(l, "%s -> %s" % (fn._qualname, how))
+    return out
+
+
+def lock_order(ctx):
+    edges = {}  # (outer, inner) -> (node, description)
+    n_with = 0
+    callbacks_under_lock = []
+    for rel in LK_FILES:
+        for q, fn in ctx.repo.mod(rel).funcs.items():
+            for w in [n for n in body_walk(fn) if isinstance(n, (ast.With, ast.AsyncWith))]:
+                outer = _with_locks(w)
+                if not outer:
+                    continue
+                n_with += 1
+                for st in w.body:
+                    for n in walk_local(st):
+                        if isinstance(n, (ast.With, ast.AsyncWith)):
+                            for inner in _with_locks(n):
+                                for o in outer:
+                                    edges.setdefault((o, inner), (n, "%s: `with %s` nested in `with %s`" % (q, inner, o)))
+                        if isinstance(n, ast.Call):
+                            if call_attr(n) in ("set_exception", "set_result"):
+                                callbacks_under_lock.append((n, q, outer))
+                            for t in _resolve_lk(ctx, n):
+                                for inner, how in _acquires(ctx, t, 3, set()).items():
+                                    for o in outer:
+                                        edges.setdefault((o, inner), (n, "%s holds %s and calls %s" % (q, o, how)))
+    ctx.floor(n_with, 12, "`with <executor lock>` blocks in the loky executor")
+    # (1) no re-acquisition of a non-reentrant lock
+    for (o, i), (node, how) in sorted(edges.items(), key=lambda kv: kv[0]):
+        if o == i:
+            ctx.check(o in REENTRANT, node, "%s is re-entered only because it is an RLock (%s)" % (o, how),
+                      "non-reentrant lock %s is acquired again while held (%s): the thread deadlocks on itself" % (o, how))
+    # (2) the order relation is acyclic
+    graph = {}
+    for (o, i) in edges:
+        if o != i:
+            graph.setdefault(o, set()).add(i)
+    order_ok = True
+    for (o, i), (node, how) in sorted(edges.items(), key=lambda kv: kv[0]):
+        if o == i:
+            continue
+        # is there a path i ->* o ?
+        stack, seen = [i], set()
+        back = False
+        while stack:
+            x = stack.pop()
+            if x == o:
+                back = True
+                break
+            if x in seen:
+                continue
+            seen.add(x)
+            stack.extend(graph.get(x, ()))
+        ctx.check(not back, node, "lock order %s -> %s is consistent with every other nesting (%s)" % (o, i, how),
+                  "lock order cycle: %s is taken while holding %s here (%s), and elsewhere %s is taken while holding %s: two threads can deadlock" % (i, o, how, o, i))
+    # (3) futures are completed (user callbacks run) with no executor lock held
+    for node, q, outer in callbacks_under_lock:
+        ctx.bad(node, "%s completes a future while holding %s: the completion callback takes joblib's dispatch lock and re-enters submit() (lock order inversion)" % (q, outer))
+    n_done = sum(1 for rel in LK_FILES for q, fn in ctx.repo.mod(rel).funcs.items() for c in calls_in(fn) if call_attr(c) in ("set_exception", "set_result"))
+    ctx.check(n_done >= 3 and not callbacks_under_lock, ctx.repo.func(PE, MT + ".process_result_item"), "%d future-completion sites, none under an executor lock" % n_done)
